@@ -147,6 +147,16 @@ CHECKS = {
              "(which id samply itself reads from the file); dyld-cache candidates are not exercised.",
         technique="Coq proof (characterisation of the first-match candidate loops, id comparisons and fat member selection) + differential correspondence run evaluated by vm_compute",
         design="4/C06"),
+    "C16": dict(
+        text="Coq theorems over every event list (any number of creators, any interleaving of the protocol's file-system steps, kills at any point, failing write functions and renames): "
+             "C16_atomic_visibility (the final path is absent or holds the complete contents of one successful write), C16_stable (once present it never changes), C16_at_most_once (at most one rename), "
+             "C16_mutex (writers exclude each other although the lock path is unlinked on success), C16_success_sees_complete, C16_retry (after any failed/killed attempts a fresh creator succeeds). "
+             "Tied to wholesym/src/file_creation.rs by running the real routine (step hook) with 2..5 creators in 1..4 processes under driver-chosen schedules with SIGKILLs, replaying every observed "
+             "trace in the model (same step, same dest/.part/.lock contents after every step) and deciding the property on the observations.",
+        note="Trusted: Coq kernel; the cfg(samply_verif) step hook; harness h_fc and the scheduler in vlib/c16.py; Linux flock/rename/unlink semantics as modelled (inode-based). The proof is about the "
+             "model's interleaving semantics at the granularity of the hooked steps; instants inside one system call, power loss and Windows are not covered; cancellation is represented by process death.",
+        technique="Coq proof (inductive invariant of an interleaving small-step semantics with inode-level locks; progress argument for the retry clause) + trace-conformance correspondence run evaluated by vm_compute",
+        design="4/C16"),
 }
 
 NOT_YET = "check not built yet in this development (planned: see DESIGN.md section 4); no claim is made"
@@ -193,7 +203,7 @@ def main():
         f.write("\n")
 
 NA = {}
-HOOK_COMMITS = ["c502d39b", "1e70e941"]
+HOOK_COMMITS = ["c502d39b", "1e70e941", "ee3e45a2"]
 
 if __name__ == "__main__":
     main()
